@@ -19,7 +19,7 @@ ASSUMPTIONS = ['raw counts are integer valued so that row sums are exact in any 
 
 
 def budget(tier):
-    return {'quick': 250, 'thorough': 5000}[tier]
+    return {'quick': 560, 'thorough': 8000}[tier]
 
 
 @st.composite
